@@ -38,13 +38,13 @@ CLAIMED = {
         "DESIGN.md 4.4",
     ),
     "C05": (
-        "static bit-layout extraction for 1005/1006, rejection-site enumeration against the two stated reasons, constant/format-verb analysis of the display (scale 1/10000, %.4f, X-Y-Z order), padding non-interference",
+        "static bit-layout extraction for 1005/1006, rejection-site enumeration against the two stated reasons, constant/format-verb analysis of the display (scale 1/10000, %.4f, X-Y-Z order) with a must-pass rule (no path through the display goes round the formatting call), padding non-interference",
         "Decides layout, guards and display formatting structurally for all field values; float rounding argued, not computed.",
         "bit reader correct (C14); fmt formats %.4f correctly",
         "DESIGN.md 4.5",
     ),
     "C06": (
-        "static dataflow/dominance rules: lost-update (copy-of-receiver) analysis, per-constellation field separation, type-dispatch table extraction, no-store-on-error paths, strict rollover comparison, result-shape rule of the Glonass converter, state changes only after the CRC gate, constant evaluation; must-pass rule: the remembered timestamp is stored on every successful path; who-may-call rule: no use of time.Now/Since/Until reachable from the handler constructor or the decoder",
+        "static dataflow/dominance rules: lost-update (copy-of-receiver) analysis, per-constellation field separation, type-dispatch table extraction, no-store-on-error paths, strict rollover comparison, result-shape rule of the Glonass converter, state changes only after the CRC gate, constant evaluation; must-pass rule: the remembered timestamp is stored on every successful path; who-may-call rule: no use of time.Now/Since/Until reachable from the handler constructor or the decoder; composed with the stream-delivers-decoder-result rules of C01",
         "Decides structural necessary conditions of the week bookkeeping (state persistence, constellation separation, dispatch tables over the whole type domain, no state write on error paths, strict rollover test with +7 days, offset/limit constants). Does not decide numerical equality of reported times.",
         "time.Time arithmetic and calendar trusted; oracle constants from the property statement",
         "DESIGN.md 4.6",
@@ -56,7 +56,7 @@ CLAIMED = {
         "DESIGN.md 4.7",
     ),
     "C08": (
-        "static dimensional/fixed-point typing of the formula methods over SSA (unit, binary exponent, decimal exponent, sign, bit ranges for |), sentinel constants against the layout widths, marker tests (==/!= against exactly the field's marker), zero-result guards, numeric constants, frequency-table partition over all signal ids, operand ownership (no package-level storage in the cell packages); parameter-dependence analysis of the shared scale helpers and of the wavelength dispatcher",
+        "static dimensional/fixed-point typing of the formula methods over SSA (unit, binary exponent, decimal exponent, sign, bit ranges for |), sentinel constants against the layout widths, marker tests (==/!= against exactly the field's marker), zero-result guards, numeric constants, frequency-table partition over all signal ids, operand ownership (no package-level storage in the cell packages); parameter-dependence analysis of the shared scale helpers and of the wavelength dispatcher; a formula tests only the fine field it uses",
         "Decides for all field values that each formula has the standard's scale/unit/sign and that invalid markers are handled as stated; floating-point rounding is not computed.",
         "field units from the oracle (RTCM DF definitions); documented frequency table taken as given",
         "DESIGN.md 4.8",
@@ -68,7 +68,7 @@ CLAIMED = {
         "DESIGN.md 4.9",
     ),
     "C11": (
-        "static happens-before (join) analysis on SSA CFG: signal-after-last-write (deferred calls in LIFO order, Flush/Sync count as writes), wait-on-every-return-path, close-before-wait, WaitGroup.Add-before-go with Add/go counting (also for goroutines that only share the writers' WaitGroup); consumer-loop path rules; use-site rule: the entry point leaves the writer alone between the first go statement and the last join",
+        "static happens-before (join) analysis on SSA CFG: signal-after-last-write (deferred calls in LIFO order, Flush/Sync count as writes), wait-on-every-return-path, close-before-wait, WaitGroup.Add-before-go with Add/go counting (also for goroutines that only share the writers' WaitGroup); consumer-loop path rules; use-site rule: the entry point leaves the writer alone between the first go statement and the last join; forward-every-byte-once path rule of the reader stage",
         "Decides whether a close->wait join exists between every writer goroutine and every return of the entry point: with it no schedule can lose output, without it some schedule does. All schedules and writer latencies are covered by the happens-before argument, not sampled.",
         "writer.Write is synchronous (true of os.Stdout, files, bytes.Buffer); Go memory model",
         "DESIGN.md 4.11",
@@ -86,37 +86,37 @@ CLAIMED = {
         "DESIGN.md 4.13",
     ),
     "C15": (
-        "static effect/mod analysis: package variables written only in init, no store through raw frame buffers, display stores confined to Readable/ErrorMessage and idempotent (no read-modify-write), handler holds no references, by-value fan-out before any display, no reads of mutable package state; Copy independence; dependence analysis of error exits of the time converters on handler state",
+        "static effect/mod analysis: package variables written only in init, no store through raw frame buffers, display stores confined to Readable/ErrorMessage and idempotent (no read-modify-write), handler holds no references, by-value fan-out before any display, no reads of mutable package state; Copy independence; dependence analysis of error exits of the time converters on handler state; no map iteration order on the decode/display path (collect-and-sort form only)",
         "Decides absence of hidden state and of shared mutable data on the decode/display path for all orders, repetitions and concurrent handlers (effect analysis over every reachable function).",
         "fmt/hex/time formatting is pure; time lines excluded by the property",
         "DESIGN.md 4.15",
     ),
     "C16": (
-        "static path rules (read->write->send exactly once, in order, same buffer and n), private-copy dataflow, consumer-loop rule, join analysis; every-path rule: the copy loop returns only over an err == io.EOF edge; arithmetic no-panic obligations (index, slice, bit-read extents, division, shift) of the copy loop, recorder and their callees discharged by affine entailment",
+        "static path rules (read->write->send exactly once, in order, same buffer and n), private-copy dataflow, consumer-loop rule, join analysis; every-path rule: the copy loop returns only over an err == io.EOF edge; arithmetic no-panic obligations (index, slice, bit-read extents, division, shift) of the copy loop, recorder and their callees discharged by affine entailment; who-may-call rule: no os.NewFile, syscall.Close/Dup2 or Close of a standard stream reachable from start",
         "Decides the tee structure of rtcmlogger on every CFG path: each block read is written to stdout and sent as a fresh copy to the recorder exactly once, the recorder writes every block and is joined before start returns. Does not decide dailylogger's file handling.",
         "os.File Read/Write contracts; dailylogger is a dependency",
         "DESIGN.md 4.16",
     ),
     "C17": (
-        "static information-flow (taint) analysis: start-time parameter as source, week quantiser as sanitiser, Handler fields as sinks; structural check of the quantiser; result-shape rule of the Glonass converter (no history-dependent re-basing); call-graph rule: the start time is handed on unchanged from the entry points to handler.New",
+        "static information-flow (taint) analysis: start-time parameter as source, week quantiser as sanitiser, Handler fields as sinks; structural check of the quantiser; result-shape rule of the Glonass converter (no history-dependent re-basing); call-graph rule: the start time is handed on unchanged from the entry points to handler.New; no use of the machine's clock reachable from the constructor or the decoder",
         "Decides non-interference of the start time modulo the week quantiser for all start times: any unquantised flow into handler state is reported with its def-use chain. Calendar arithmetic of the quantiser is assumed.",
         "time package semantics; quantiser granularity argued structurally (Sunday 00:00:00 UTC) and tested by the suite",
         "DESIGN.md 4.17",
     ),
     "C19": (
-        "static path rules on both relay loops (read->peer write exactly once, same buffer and n, fresh buffer, no write deadline or non-negative SetLinger on a relay connection), non-mutation scan over every module function reachable from the proxy package (store, copy, in-place append into a buffer not allocated there), taint analysis of traffic-derived text to the status page with the escape helper as sanitiser, provenance (who may call Add / send on the byte channel); no relay loop closes a connection; composed with all rules of C18 for the queue the parser side feeds",
+        "static path rules on both relay loops (read->peer write exactly once, same buffer and n, fresh buffer, no write deadline or non-negative SetLinger on a relay connection), non-mutation scan over every module function reachable from the proxy package (store, copy, in-place append into a buffer not allocated there), taint analysis of traffic-derived text to the status page with the escape helper as sanitiser, provenance (who may call Add / send on the byte channel); no relay loop closes a connection; composed with all rules of C18 for the queue the parser side feeds and all rules of C02 for the parser's segmentation",
         "Decides the relay and escaping structure on every CFG path and every flow into the page; TCP/HTTP behaviour is outside.",
         "net.Conn Read/Write contracts; statusreporter dependency; escape helper adequacy = replaces '<' and '>' throughout",
         "DESIGN.md 4.19",
     ),
     "C18": (
-        "static lock-discipline analysis (every field access dominated by the queue's lock, writes under the write lock, helpers called with the lock held), encapsulation check, structural FIFO rules (monotone key, evict-before-insert with >=, ascending sorted snapshot); call-site rules: every Add is synchronous, and a loop feeding the queue from a channel ends only when the channel is closed",
+        "static lock-discipline analysis (every field access dominated by the queue's lock, writes under the write lock, helpers called with the lock held), encapsulation check, structural FIFO rules (monotone key, evict-before-insert with >=, ascending sorted snapshot); call-site rules: every Add is synchronous, and a loop feeding the queue from a channel ends only when the channel is closed; use-site rule: the snapshot slice is only appended to and returned",
         "Decides for all operation sequences and interleavings the structural conditions of a bounded FIFO under a readers-writer lock; linearizability follows from atomic critical sections and is not enumerated.",
         "sync.RWMutex, sort.Ints and map semantics trusted",
         "DESIGN.md 4.18",
     ),
     "C20": (
-        "static table extraction: set-wise abstract interpretation of every classifier over the complete 4098-value type domain, compared with sibling tables and the oracle; guard analysis of the display entry point (analysis skipped only when already done); composed with the leader-type layout rule and the stream-delivers-decoder-result rules of C01",
+        "static table extraction: set-wise abstract interpretation of every classifier over the complete 4098-value type domain, compared with sibling tables and the oracle; guard analysis of the display entry point (analysis skipped only when already done); composed with the leader-type layout rule and the stream-delivers-decoder-result rules of C01, the rules of C04 and the fan-out rule of C09",
         "All classification tables are extracted from the SSA of the current source and compared over the whole domain {-2,-1,0..4095}; exhaustive over message types. Decides table agreement, not that the reached decoders behave.",
         "go/types+go/ssa model of the source; oracle sets in oracles/classification.json; an unrecognised predicate form fails the check (sound, incomplete)",
         "DESIGN.md 4.20",
